@@ -98,3 +98,32 @@ async fn verif_model_header_subscription() {
     }
     println!("ENUM-OK cases={announced}");
 }
+
+// D20 (C37, known finding): a head announced by a re-initialisation that directly continues the stream waits in `pending`
+// until the next forward insert - all heights up to it are stored, the subscriber has not received it.
+#[async_test]
+async fn verif_c37_reinit_adjacent_head_waits() {
+    let mut generator = ExtendedHeaderGenerator::new();
+    let chain = generator.next_many(6);
+    let inner = Arc::new(InMemoryStore::new());
+    let mut store = BroadcastingStore::new(inner.clone());
+    let mut rx = store.subscribe();
+    inner.insert(chain[0].clone()).await.unwrap();
+    store.init_broadcast(chain[0].clone());                       // head 1
+    store.announce_insert(vec![chain[1].clone()]).await.unwrap();  // 2
+    // reconnect: the new network head is 3 = last sent + 1; try_init stores it and re-initialises the stream
+    inner.insert(chain[2].clone()).await.unwrap();
+    store.init_broadcast(chain[2].clone());
+    // a historical insert does not help either
+    let mut seen = Vec::new();
+    while let Ok(h) = rx.try_recv() { seen.push(h.height()); }
+    let stored = inner.get_stored_header_ranges().await.unwrap();
+    if seen == vec![1, 2] {
+        println!("WITNESS C37/D20: heights {stored} are stored, the stream was re-initialised with head 3 (= last sent + 1), but the subscriber received only {seen:?}; 3 is delivered only with the next forward insert");
+    } else {
+        println!("NO-WITNESS D20: subscriber received {seen:?}");
+    }
+    store.announce_insert(vec![chain[3].clone()]).await.unwrap();
+    while let Ok(h) = rx.try_recv() { seen.push(h.height()); }
+    assert_eq!(seen, vec![1, 2, 3, 4]);
+}
